@@ -71,6 +71,12 @@ CHECKS.update({
    note="schedule part: in-process fake plugins at the seam, handler entry and the callback are scheduling points; content part is free-running underneath"),
 })
 
+CHECKS.update({
+ "C16": dict(level="fault_enumeration", ref="4 C16", technique="exhaustive enumeration of fault points (every byte offset of the handshake, both directions) and of operation histories (all sequences up to length 4/5) on the real stub against a real runtime end, with the asynchronous close notification delivered immediately or held at a build-time gate; reference model of the session state",
+   text="(1) the stub's connection is cut after every byte of connect/register/configure/synchronize in either direction (299 offsets), plus unreachable runtime, refused registration, failing configuration: Start returns within the horizon, Wait returns, the close notification fires once iff a session was established, a restart on a fresh connection succeeds and receives events, Stop returns. (2) every sequence of length <= 4 (5) over {Start on a fresh connection, Stop, Wait, peer drops the connection, release one held close notification}, on a fresh stub, in two modes (notification delivered as it comes / held at a gate inserted at the entry of the stub's connection-closed handler until released): every step is checked against a reference model (started, live session, notifications pending/delivered); a late notification of an earlier session must not end a later one; OnClose fires exactly once per ended session.",
+   note="free-running underneath (ttrpc goroutines); a call is reported stuck after 6 s against a 300 ms registration timeout; violations are re-executed before they are believed; whether a start that never established a session produces a notification is left open by the statement and not checked"),
+})
+
 NOT_YET = {}
 
 def main():
